@@ -53,7 +53,7 @@ func (g *gen) learnBC(tok string) {
 // the panel grows (up to a cap) by label sets on both sides of what was generated
 func (g *gen) addPanel(lss []map[string]string, n int) {
 	for _, ls := range lss {
-		if n == 0 || len(g.panel) >= 16 {
+		if n == 0 || len(g.panel) >= 18 {
 			return
 		}
 		tok := "L" + silx.LsStr(ls)
@@ -183,7 +183,11 @@ func (g *gen) opEdit() (string, int) {
 		}
 	}
 	end := g.now + int64(r.IntN(6)-1)*grid
-	return silx.SetLine("set", 0, g.now, sid, silx.I64(start), silx.I64(end), silx.Comment(r), sets, false), 2
+	kind := "set"
+	if r.IntN(3) == 0 {
+		kind = "setq" // read-modify-write on the object a lookup by id returned
+	}
+	return silx.SetLine(kind, 0, g.now, sid, silx.I64(start), silx.I64(end), silx.Comment(r), sets, false), 2
 }
 
 func (g *gen) opExpire() (string, int) {
